@@ -19,13 +19,15 @@ IMPORTS = ("From JV Require Import Lib.Base Lib.Regex Model.TyVal Model.Scalar M
 RULE = ("one case = (parser, accepted configuration, variant): parser = 1-5 leaves, some under nested groups (dotted keys, "
         "depth <= 3), each with a type drawn from the grammar str/int/float/bool/Any, Optional, Union (int|str, str|int, "
         "float|str, int|float, bool|int, List[int]|str, ...), List, Dict[str,T], Dict[int,T], Tuple[...], Tuple[T,...], Set, "
-        "Literal, two Enums (one whose member names are YAML booleans/null), nesting depth <= 3, and a well-typed default or "
+        "Literal, two Enums (one whose member names are YAML booleans/null), two dataclasses used as type-hint VALUES (Limits, "
+        "Sched with a nested Optional[Limits]; below Optional / List / Dict / Tuple, fields left out, given, or explicitly null over "
+        "None and non-None field defaults), nesting depth <= 3, and a well-typed default or "
         "None; configuration = the parser's own answer to generated typed values given as an object or as argv; str values "
         "from a pool of scalar look-alikes (1e3, 1_0, 0x1F, 1:30, .inf, null, ~, yes, on, 2001-01-01, <<, =, ...), YAML "
         "syntax (leading/trailing space, ': ', ' #', '- ', quotes, flow brackets, multi-line, tabs, control and non-BMP "
         "characters, NEL/DEL/C1) and random strings over a numeric-looking alphabet, also as dict keys; variant = "
         "dump(yaml|json|json_indented, skip_none=False)[+skip_default], --print_config[=skip_default|comments] re-fed through "
-        "--cfg, save()[default skip_none | skip_none=False] + parse_path; quick: systematic single-leaf sweep of the pool over "
+        "--cfg, save()[default skip_none | skip_none=False] + parse_path; quick: systematic single-leaf sweep of the pool over every str-admitting type and format, 9 dataclass-valued configurations x 8 variants, and of "
         "every str-admitting type and format + 900 random cases, thorough: + 9000; non-trivial = the configuration was "
         "accepted and has a non-None leaf; distinct = distinct (declaration, configuration, variant)")
 TRUSTED = [
@@ -792,16 +794,16 @@ META = {
                   "serialise/parse pair then dump -> text -> parse returns the configuration value for value and type for type. "
                   "Four _refuted witnesses show the unguarded statement false of the faithful model. Exercised by the "
                   "correspondence only: that each accepted leaf value survives serialise/parse (leaf_stable is a premise of "
-                  "(P), evaluated per case over the whole type grammar incl. Union/Literal/Enum/Set/Dict[int]), the real "
+                  "(P), evaluated per case over the whole type grammar incl. Union/Literal/Enum/Set/Dict[int]/dataclass-typed values), the real "
                   "dump / --print_config / save+parse_path paths, nested groups, and the model itself (data handed to the "
                   "dumper, loader's view of the text, re-parsed configuration, every written str and float against PyYAML).",
     "level_note": "Partial: premises of (V)/(P) are Python's int/float <-> text conversions (int_text_ok, yfloat_text_ok, "
                   "jfloat_text_ok; checked per observed float by the judge) and per-leaf stability; PyYAML's emitter/scanner "
                   "are trusted for document structure and for the characters of a scalar (known false for U+0085 and, from "
                   "JSON text, C1 controls / U+FFFE / U+FFFF / U+2028-9: finding unprintable-str). yaml_comments output "
-                  "(re-emitted by ruyaml) is not modelled (finding comments-reemit). Seven open findings are guarded by class "
-                  "(Model/C01Guard.v) and reported as KNOWN-FINDING. parser_mode yaml only; no subclass specs, dataclasses, "
-                  "subcommands, links, toml/jsonnet. No axioms (Print Assumptions: closed under the global context).",
+                  "(re-emitted by ruyaml) is not modelled (finding comments-reemit). Seven open findings are guarded by class (an eighth, skip-default-drops-changed-class, concerns subclass specs and is listed with a standalone reproduction and a fix patch) "
+                  "(Model/C01Guard.v) and reported as KNOWN-FINDING. parser_mode yaml only; no subclass specs, dataclasses expanded as groups, "
+                  "subcommands, links, toml/jsonnet; a dataclass directly as the type of a leaf (behaves as an expanded group) is outside the space. No axioms (Print Assumptions: closed under the global context).",
     "technique": "Rocq proof: verified regex-inclusion certificates over regenerated resolver tables + structural induction on "
                  "values and leaf lists; correspondence of a hand-written value-level model with real dump/print_config/save "
                  "round trips, judged inside Coq",
